@@ -40,8 +40,12 @@ RULE = ("recipes of datasets (1..40 events; subsets of scalar, fl1..3_max, "
         "ds.export.hdf5 (feature subsets, filtered), dclab-compress/-repack/"
         "-condense/-join/-split, then 0, 1 or 2 raw-h5py corruptions "
         "(truncate/extend a feature, trace, contour or index; event count; "
-        "ROI size; unknown feature; delete mandatory keys or a section; "
-        "non-enumerating index; channel/laser/sample counts; external link; "
+        "ROI size incl. exchanged x/y and transposed images; unknown feature; "
+        "delete mandatory keys or a section; non-enumerating index incl. "
+        "interior duplicates/plateaus/fractional values that keep length, "
+        "first, last and monotony, other dtypes; channel/laser/sample counts "
+        "incl. one trace of another width, counts agreeing with each other "
+        "but not the data, moved channel names; external link; "
         "non-positive set-up values; polygon shape; ml_score; temp); a case "
         "is non-trivial when the file could be checked and (for corrupted "
         "files) at least one violation was reported; distinct = different "
@@ -373,7 +377,9 @@ def abstract(h5):
             feats.append([r, 1, IMG_KINDS.index(nm), int(obj.shape[0]),
                           int(obj.shape[1]), int(obj.shape[2])])
         elif nm == "index":
-            feats.append([r, 2, 0, 0, 0] + [int(v) for v in obj[:]])
+            # a value that is not an integer equals no member of 1..n: -1
+            feats.append([r, 2, 0, 0, 0] + [
+                int(v) if float(v) == int(v) else -1 for v in obj[:]])
         elif re.match(r"^fl[123]_max$", nm):
             feats.append([r, 3, int(nm[2]), int(obj.shape[0])])
         elif nm == "temp":
@@ -537,6 +543,41 @@ def _resize(arr, k):
     return np.concatenate([arr] + reps)
 
 
+# interior changes of an enumeration -> minimal number of events
+INDEX_INTERIOR_MODES = {"dup_prev": 3, "dup_next": 3, "plateau2": 4,
+                        "plateau3": 5, "plateau5": 7, "skip_catch": 5,
+                        "frac": 3, "frac_dup": 3}
+
+
+def index_interior(v, mode, pos):
+    """v: an integer array; returns the changed array (same length, first and
+    last value, monotone non-decreasing)."""
+    import numpy as np
+    n = len(v)
+    v = np.array(v)
+    if mode in ("frac", "frac_dup"):
+        v = v.astype(np.float64)
+    width = {"plateau2": 2, "plateau3": 3, "plateau5": 5}.get(mode, 1)
+    lo, hi = 1, n - 1 - width           # first changed position: lo..hi
+    if mode == "skip_catch":
+        hi = n - 3
+    i = min(hi, lo + pos * max(1, (hi - lo) // 2)) if hi >= lo else lo
+    if mode == "dup_prev":
+        v[i] = v[i - 1]
+    elif mode == "dup_next":
+        v[i] = v[i + 1]
+    elif mode.startswith("plateau"):
+        v[i:i + width] = v[i - 1]
+    elif mode == "skip_catch":          # .., 7, 9, 10, 10, 11, ..
+        v[i] = v[i] + 1
+        v[i + 1] = v[i + 1] + 1
+    elif mode == "frac":
+        v[i] = v[i] - 0.5
+    elif mode == "frac_dup":
+        v[i] = v[i] + 0.25
+    return v
+
+
 def corruption_menu(h5, info):
     """Applicable corruption kinds for this file: list of (kind, params)."""
     import dclab.definitions as dfn
@@ -559,22 +600,42 @@ def corruption_menu(h5, info):
             menu.append(("index_values", dict(mode="shift")))
             if n > 1:
                 menu.append(("index_values", dict(mode="swap")))
+            # keep length, first and last value and monotony (every cheap
+            # summary of an enumeration), change the interior
+            menu += [("index_interior", dict(mode=m, pos=q))
+                     for m in INDEX_INTERIOR_MODES for q in (0, 1, 2)
+                     if n >= INDEX_INTERIOR_MODES[m]]
+            menu += [("index_dtype", dict(dtype=d))
+                     for d in ("uint8", "int16", "uint64", "float64")]
         else:
             menu += [("feat_len", dict(f=nm, k=k)) for k in lens]
     if "index" not in ev:
         menu.append(("index_add", dict(mode="zero")))
         menu.append(("index_add", dict(mode="ok")))
+        menu += [("index_add", dict(mode=m, pos=q))
+                 for m in INDEX_INTERIOR_MODES for q in (0, 1)
+                 if n >= INDEX_INTERIOR_MODES[m]]
     menu += [("evcount", dict(v=v)) for v in (max(n - 1, 0), n + 1, n + 7)
              if v != n]
     for k in IMG_KINDS:
         if k in ev:
             menu += [("roi", dict(axis=a, d=d)) for a in "xy" for d in (-1, 2)]
+            # sizes exchanged: sum, product, min and max are kept
+            if "imaging:roi size x" in at and "imaging:roi size y" in at \
+                    and at["imaging:roi size x"] != at["imaging:roi size y"]:
+                menu.append(("roi_swap", {}))
             break
     for k in IMG_KINDS:
         if k not in ev and "imaging:roi size x" in at:
             menu.append(("img_add", dict(f=k, dh=1, dw=0)))
             menu.append(("img_add", dict(f=k, dh=0, dw=-1)))
             menu.append(("img_add", dict(f=k, dh=0, dw=0)))
+            if "imaging:roi size y" in at and \
+                    at["imaging:roi size x"] != at["imaging:roi size y"]:
+                # transposed image
+                d = int(at["imaging:roi size x"]) - int(
+                    at["imaging:roi size y"])
+                menu.append(("img_add", dict(f=k, dh=d, dw=-d)))
     menu += [("unknown", dict(name=nm)) for nm in
              ("peter", "def", "area_xyz", "userdef10")]
     tab = info["tab"]
@@ -601,11 +662,24 @@ def corruption_menu(h5, info):
                     menu.append(("laser_del_lambda", dict(i=i)))
         if "fluorescence:samples per event" in at and "trace" in ev:
             menu += [("spe", dict(d=d)) for d in (1, -1, 5)]
+            # only one of the traces has another number of samples
+            for t in ev["trace"]:
+                menu += [("trace_width", dict(t=t, d=d)) for d in (1, -1)]
+        if "fluorescence:channel count" in at and \
+                "fluorescence:laser count" in at:
+            # counts that agree with each other, not with the data
+            menu += [("counts_both", dict(v=v)) for v in (0, 1, 2, 3)]
+        for i in (1, 2, 3):
+            for j in (1, 2, 3):
+                if "fluorescence:channel %d name" % i in at and \
+                        "fluorescence:channel %d name" % j not in at:
+                    # same number of names, other channel
+                    menu.append(("chname_move", dict(i=i, j=j)))
     menu += [("extlink", dict(where=w)) for w in ("events", "logs", "root")]
     menu += [("nonpos", dict(sec=s, key=k, v=v))
              for s, k in (("imaging", "frame rate"), ("imaging", "pixel size"),
                           ("setup", "channel width"), ("setup", "flow rate"))
-             for v in (0, -96)]
+             for v in (0, -96, -1)]
     menu += [("poly", dict(rows=r, cols=c)) for r, c in
              ((2, 2), (4, 3), (3, 2), (1, 1))]
     for m in ev:
@@ -664,10 +738,27 @@ def _apply_corruption(h5, kind, p, info, scratch):
             v[[0, -1]] = v[[-1, 0]]
         _replace(ev, "index", v)
         return [[3, 0, 0]]
+    if kind == "index_interior":
+        v = index_interior(ev["index"][:], p["mode"], p["pos"])
+        _replace(ev, "index", v)
+        bad = n is None or not np.array_equal(v, np.arange(1, int(n) + 1))
+        return [[3, 0, 0]] if bad and n is not None else []
+    if kind == "index_dtype":
+        v = ev["index"][:]
+        if p["dtype"] == "uint8" and len(v) and v.max() > 255:
+            return []
+        _replace(ev, "index", v.astype(p["dtype"]))
+        return []
     if kind == "index_add":
         if "index" in ev:
             return []
         nn = int(n) if n is not None else 3
+        if p["mode"] in INDEX_INTERIOR_MODES:
+            if nn < INDEX_INTERIOR_MODES[p["mode"]]:
+                return []
+            v = index_interior(np.arange(1, nn + 1), p["mode"], p["pos"])
+            ev.create_dataset("index", data=v)
+            return [[3, 0, 0]]
         start = 1 if p["mode"] == "ok" else 0
         ev.create_dataset("index", data=np.arange(start, start + nn))
         return [[3, 0, 0]] if (start == 0 and nn > 0) else []
@@ -683,6 +774,13 @@ def _apply_corruption(h5, kind, p, info, scratch):
         at[key] = int(at[key]) + p["d"]
         k = tab.index(("imaging", "roi size %s" % p["axis"]))
         return [("anycatkey", 6, k)]
+    if kind == "roi_swap":
+        rx, ry = int(at["imaging:roi size x"]), int(at["imaging:roi size y"])
+        at["imaging:roi size x"], at["imaging:roi size y"] = ry, rx
+        if rx == ry:
+            return []
+        return [("anycatkey", 6, tab.index(("imaging", "roi size x"))),
+                ("anycatkey", 6, tab.index(("imaging", "roi size y")))]
     if kind == "img_add":
         if p["f"] in ev or "imaging:roi size y" not in at \
                 or "imaging:roi size x" not in at:
@@ -758,6 +856,46 @@ def _apply_corruption(h5, kind, p, info, scratch):
                 del at["fluorescence:laser %d lambda" % i]
             now = False
         return [("fl", [6, 20, 0])] if was != now else []
+    if kind == "trace_width":
+        d = ev["trace"][p["t"]][:]
+        spe = int(at["fluorescence:samples per event"])
+        if p["d"] > 0:
+            d = np.concatenate([d, d[:, :p["d"]]], axis=1)
+        else:
+            d = d[:, :d.shape[1] + p["d"]]
+        if d.shape[1] < 1:
+            return []
+        _replace(ev["trace"], p["t"], d)
+        if d.shape[0] == 0 or d.shape[1] == spe:
+            return []
+        return [("fl", [6, 23, TRACES.index(p["t"])])]
+    if kind == "counts_both":
+        at["fluorescence:channel count"] = p["v"]
+        at["fluorescence:laser count"] = p["v"]
+        chfound = sum(1 for i in (1, 2, 3)
+                      if "fluorescence:channel %d name" % i in at
+                      and "fl%d_max" % i in ev)
+        lafound = sum(1 for i in (1, 2, 3)
+                      if "fluorescence:laser %d lambda" % i in at
+                      and "fluorescence:laser %d power" % i in at
+                      and at["fluorescence:laser %d power" % i] != 0)
+        out = []
+        if p["v"] != chfound:
+            out.append(("fl", [6, 18, 0]))
+        if p["v"] != lafound:
+            out.append(("fl", [6, 20, 0]))
+        return out
+    if kind == "chname_move":
+        name = at["fluorescence:channel %d name" % p["i"]]
+        del at["fluorescence:channel %d name" % p["i"]]
+        at["fluorescence:channel %d name" % p["j"]] = name
+        if "fluorescence:channel count" not in at:
+            return []
+        found = sum(1 for i in (1, 2, 3)
+                    if "fluorescence:channel %d name" % i in at
+                    and "fl%d_max" % i in ev)
+        return [("fl", [6, 18, 0])] \
+            if int(at["fluorescence:channel count"]) != found else []
     if kind == "spe":
         at["fluorescence:samples per event"] = \
             int(at["fluorescence:samples per event"]) + p["d"]
@@ -1164,7 +1302,8 @@ def _object_of(c):
         return "feat:" + p["f"]
     if kind in ("trace_len",):
         return "trace:" + p["t"]
-    if kind in ("index_len", "index_values", "index_add"):
+    if kind in ("index_len", "index_values", "index_add", "index_interior",
+                "index_dtype"):
         return "feat:index"
     if kind == "contour_drop":
         return "feat:contour"
@@ -1172,7 +1311,13 @@ def _object_of(c):
         return "key:%s:%s" % (p["sec"], p["key"])
     if kind == "del_section":
         return "sec:" + p["sec"]
-    if kind in ("chcount", "del_chname"):
+    if kind == "roi_swap":
+        return "key:imaging:roi size x"
+    if kind == "trace_width":
+        return "trace:" + p["t"]
+    if kind == "counts_both":
+        return "key:fluorescence:counts"
+    if kind in ("chcount", "del_chname", "chname_move"):
         return "key:fluorescence:channel count"
     if kind in ("lasercount", "laser_power", "laser_del_lambda"):
         return "key:fluorescence:laser count"
@@ -1220,6 +1365,11 @@ def independent(c, later):
                 "key:fluorescence") or (
                 a.startswith("key:fluorescence") and other[0] == "del_section"
                 and other[1]["sec"] == "fluorescence"):
+            return False
+        # a changed trace width is compared with the stored sample count
+        if c[0] == "trace_width" and (
+                b.startswith("key:fluorescence") or b == "sec:fluorescence"
+                or b.startswith("feat:fl")):
             return False
         # ROI keys: deleting one disables the comparison
         if a.startswith("key:imaging:roi") and (
